@@ -12,18 +12,15 @@
 (* `Dev' names behaviour of the code that is known to be wrong; with       *)
 (* Dev = {} the module describes the design as it has to be.               *)
 (***************************************************************************)
-EXTENDS Naturals, Sequences, FiniteSets, SequencesExt, TLC
+EXTENDS Naturals, Sequences, FiniteSets, SequencesExt, TLC, ManifestOps
 
 CONSTANTS
-    Names,       \* table / view names
     MaxStmts,    \* bound on the number of statements in a history
     MaxBoots,    \* bound on boots
     MaxRows,     \* bound on rows ever inserted
     CrashOn,     \* TRUE: the process may die at any step
     AllowViews,  \* TRUE: CREATE VIEW / CREATE INDEX statements occur
     Dev          \* subset of {"SharedIdCounter", ...}: deviations of the code
-
-NoId == 100
 
 (***************************************************************************)
 (* Small helpers on functions with a dynamic domain.                       *)
@@ -97,36 +94,6 @@ ApplyEff(db, e) ==
 
 \* Views are not persisted: a reopened database has none.
 DropViews(db) == [n \in Names |-> IF db[n].k = "view" THEN [k |-> "none", rows |-> {}] ELSE db[n]]
-
-(***************************************************************************)
-(* Manifest replay, as coded in SecondaryStorage::bootstrap.               *)
-(* Table ids are NOT logged: they are re-derived by counting CreateTable   *)
-(* records.                                                                *)
-(***************************************************************************)
-R0 == [ids |-> [n \in Names |-> NoId], next |-> 0, rs |-> {}, dv |-> {},
-       nrs |-> 0, ndv |-> 0, ok |-> TRUE, hist |-> <<>>]
-
-ReplayOp(s, op) ==
-    IF ~s.ok THEN s ELSE
-    CASE op.o = "CT" ->
-           IF s.ids[op.n] # NoId THEN [s EXCEPT !.ok = FALSE]        \* Duplicated("table")
-           ELSE [s EXCEPT !.ids[op.n] = s.next, !.next = s.next + 1,
-                          !.hist = Append(s.hist, op)]
-      [] op.o = "DT" ->
-           IF \E n \in Names : s.ids[n] = op.t
-           THEN LET n == CHOOSE n \in Names : s.ids[n] = op.t
-                IN  [s EXCEPT !.ids[n] = NoId, !.hist = Append(s.hist, op)]
-           ELSE [s EXCEPT !.ok = FALSE]                               \* NotFound("table")
-      [] op.o = "ARS" -> [s EXCEPT !.rs = @ \cup {<<op.t, op.r>>},
-                                   !.nrs = IF op.r + 1 > @ THEN op.r + 1 ELSE @]
-      [] op.o = "DRS" -> [s EXCEPT !.rs = @ \ {<<op.t, op.r>>}]
-      [] op.o = "ADV" -> [s EXCEPT !.dv = @ \cup {<<op.t, op.r, op.d>>},
-                                   !.ndv = IF op.d + 1 > @ THEN op.d + 1 ELSE @]
-      [] op.o = "DDV" -> [s EXCEPT !.dv = @ \ {<<op.t, op.r, op.d>>}]
-
-RECURSIVE ReplayFrom(_, _, _)
-ReplayFrom(s, m, i) == IF i > Len(m) THEN s ELSE ReplayFrom(ReplayOp(s, m[i]), m, i + 1)
-Replay(m) == ReplayFrom(R0, m, 1)
 
 \* After replay every remembered row-set / DV must belong to a known table and open.
 Openable(s) ==
